@@ -88,9 +88,10 @@ def standard_scenario(src, cfg, nmembers, event_times, quiet=3.0, fault_apis=(),
     ev = evs[src.choice("event", len(evs))]
     plan["event"] = ev
     if ev != "none":
-        plan["victim"] = ["A", "B", "C"][src.choice("victim", nmembers)] if ev in ("stop", "crash", "pause_poll") else "A"
+        plan["victim"] = ["A", "B", "C"][src.choice("victim", nmembers)] if ev in ("stop", "crash", "pause_poll", "cut_off_from_coordinator") else "A"
         plan["event_at"] = event_times[src.choice("event_at", len(event_times))] + 0.02
     plan["listener_delay"] = [0.0, 0.15][src.choice("listener_delay", 2)]
+    plan["listener_style"] = ["async", "delegating", "sync"][src.choice("listener_style", 3)] if cfg.get("vary_listener_style") else "async"
     # slow SyncGroup replies (a metadata refresh or another event can land while it is in flight)
     plan["sync_delay"] = [0.0, 0.25][src.choice("sync_delay", 2)] if cfg.get("vary_sync_delay") else 0.0
     # partition t-1 without a leader until an election finishes (its position lookup starts later)
@@ -102,7 +103,14 @@ def standard_scenario(src, cfg, nmembers, event_times, quiet=3.0, fault_apis=(),
     plan["heartbeat_delay"] = [0.0, 0.45][src.choice("heartbeat_reply_takes", 2)] if cfg.get("vary_heartbeat_delay") else 0.0
 
     async def scenario(run, loop):
-        run.cluster.fault_fn = faults
+        run.isolated = {}
+
+        def fault_fn(cluster, node, req, entry):
+            until = run.isolated.get(entry["client"])
+            if until is not None and loop.time() < until and req.API_KEY in (8, 9, 10, 11, 12, 13, 14):
+                return "drop_before"  # the member cannot reach the coordinator (the partition leaders it can)
+            return faults(cluster, node, req, entry)
+        run.cluster.fault_fn = fault_fn
         run.plan = plan
         run.cluster.sync_delay = plan["sync_delay"]
         run.cluster.heartbeat_delay = plan["heartbeat_delay"]
@@ -122,7 +130,7 @@ def standard_scenario(src, cfg, nmembers, event_times, quiet=3.0, fault_apis=(),
             loop.call_later(t_lose, lose)
             loop.call_later(t_lose + (plan["leaderless_until"] - 0.3), elect)
         names = ["A", "B", "C"][:nmembers]
-        ms = {n: run.member(n, listener_delay=plan["listener_delay"]) for n in names}
+        ms = {n: run.member(n, listener_delay=plan["listener_delay"], listener_style=plan["listener_style"]) for n in names}
         writer_on = [True]
 
         async def writer():
@@ -159,6 +167,12 @@ def standard_scenario(src, cfg, nmembers, event_times, quiet=3.0, fault_apis=(),
             elif what == "crash":
                 if m.consumer is not None and m.alive:
                     m.crash()
+            elif what == "cut_off_from_coordinator":
+                # for longer than the session timeout the member's group requests get nowhere: it is evicted,
+                # others take its partitions over, later it comes back
+                if m.consumer is not None and m.alive:
+                    run.isolated[m.name] = loop.time() + cfg.get("cut_off_for", 1.6)
+                    m.events.append((loop.time(), "cut_off_from_coordinator"))
             elif what == "pause_poll":
                 # the application stops polling for longer than max.poll.interval: the member leaves the group
                 if m.consumer is not None and m.alive:
@@ -276,6 +290,15 @@ def check_c05(src, run, res):
             ok = any(tl < a <= t + 1e-9 for a in assigns)
             src.check(ok, f"member {name} delivered a record of {d[1]}-{d[2]} after it had left the group (LeaveGroup at {tl:.3f}) "
                       "and before it was assigned partitions again", offset=d[3], at=round(t, 3), plan=_plan(run))
+    # (c') between two assignments of a member its on_partitions_revoked ran to completion (whatever kind of
+    #      callable the listener uses: async def, plain def, plain def returning a coroutine)
+    for name, m in run.members.items():
+        assigns = [e[0] for e in m.events if e[1] == "assign_start"]
+        ends = [e[0] for e in m.events if e[1] == "revoke_end"]
+        for a0, a1 in zip(assigns, assigns[1:]):
+            ok = any(a0 < t <= a1 + 1e-9 for t in ends)
+            src.check(ok, f"member {name}: on_partitions_assigned was called again (at {a1:.3f}) without its on_partitions_revoked "
+                      "having run to completion since the previous assignment", plan=_plan(run))
     # (c) all revoke callbacks of a rebalance finish before any assign callback of the resulting generation
     for i, (ts, gen) in enumerate(stable_times):
         nxt = stable_times[i + 1][0] if i + 1 < len(stable_times) else float("inf")
